@@ -315,10 +315,60 @@ def fd_strategy(tier, shard=0, nshards=1):
     return ad_case(tier, shard, nshards)
 
 
+# ---- the density matrix the driver writes in reverse mode -----------------------------------------------------------------------
+@st.composite
+def drv_rdm_case(draw, tier, shard=0, nshards=1):
+    wt = ("uhf", "rhf")[shard % 2] if nshards > 1 else draw(st.sampled_from(["uhf", "rhf"]))
+    # strongly interacting, large time step, many short blocks: the block density matrices fluctuate enough for the driver's outlier filters
+    # to drop some of them now and then
+    p = draw(sl.problem(walker_types=(wt,), shapes={"rhf": [(3, (1, 1))], "uhf": [(3, (2, 1))]}, n_walkers=(6,), dts=(0.05,), nchol=(2,), chol_scale=(0.6, 0.8)))
+    p["n_batch"] = 1
+    p["n_blocks"] = draw(st.sampled_from([10, 12, 14]))
+    return p
+
+
+def drv_rdm_body(ctx, case):
+    """With one energy block per sampling block every block's reverse-mode density matrix has per-spin trace = electron count (checked at the
+    sampler level in vjp_vs_jvp_and_primals); whatever blocks the driver keeps and however it weights them, a normalised average keeps that trace."""
+    import io
+
+    P = sl.Problem(case)
+    if not P.converged:
+        ctx.count("rejected:scf-not-converged")
+        hypothesis.assume(False)
+    nb = int(case["n_blocks"])
+    ctx.case(case, nontrivial=True, classes=[f"driver-rdm1:{case['walker_type']}", f"driver-rdm1:n_blocks={nb}"])
+    smp = sampling.sampler(n_prop_steps=4, n_ene_blocks=1, n_sr_blocks=1, n_blocks=nb)
+    opts = runs.default_options(seed=int(case["seed"]) % 100000, n_walkers=P.nw, dt=P.dt, n_prop_steps=4, n_ene_blocks=1, n_sr_blocks=1, n_blocks=nb, walker_type=case["walker_type"], ad_mode="reverse")
+    o = np.eye(P.norb)
+    try:
+        out = runs.run_driver(P.ham_data0, P.ham, P.prop, P.trial, P.wave_data, smp, [np.stack([o, o]), 0.0], opts, keep=("rdm1_afqmc.npz",))
+    except Exception as ex:
+        ctx.fail(f"driver-rdm1:raised-{type(ex).__name__}", case, f"{type(ex).__name__}: {str(ex)[:300]}")
+        return
+    raw = out["samples_raw"]
+    blob = out["files"].get("rdm1_afqmc.npz")
+    if raw is None or not np.all(np.isfinite(raw)) or np.any(raw[:, 0] == 0):
+        ctx.count("skipped:population-died-or-nonfinite-samples")
+        return
+    if not blob:
+        ctx.fail("driver-rdm1:no-rdm-file", case, "reverse mode wrote no rdm1_afqmc.npz")
+        return
+    d = np.load(io.BytesIO(blob))
+    r = np.asarray(d[d.files[0]])
+    if not np.all(np.isfinite(r)):
+        ctx.count("skipped:nonfinite-density-matrix")
+        return
+    tr = np.array([np.trace(r[0]).real, np.trace(r[1]).real]) if r.ndim == 3 else np.array([np.trace(r).real])
+    want = np.array([P.nelec[0], P.nelec[1]], float) if r.ndim == 3 else np.array([float(P.nelec[0] + P.nelec[1])])
+    ctx.check_close(f"driver-rdm1:trace:{case['walker_type']}", case, "per-spin trace of the written density matrix - electron count", tr, want, 1e-5, 1.0)
+
+
 SUBCHECKS = [
     SubCheck("jvp_vs_finite_differences", body=fd_body, strategy=fd_strategy, examples={"quick": 4, "thorough": 40}, shards={"quick": 8, "thorough": 8}, shrink=False),
     SubCheck("vjp_vs_jvp_and_primals", body=vjp_body, strategy=fd_strategy, examples={"quick": 3, "thorough": 30}, shards={"quick": 8, "thorough": 8}, shrink=False),
     SubCheck("one_body_limit", body=ob_body, strategy=ob_strategy, examples={"quick": 3, "thorough": 30}, shards={"quick": 8, "thorough": 8}, shrink=False),
+    SubCheck("driver_rdm1_trace", body=drv_rdm_body, strategy=drv_rdm_case, examples={"quick": 1, "thorough": 8}, shards={"quick": 4, "thorough": 8}, shrink=False),
     SubCheck("one_body_limit_driver", body=ob_driver_body, strategy=ob_driver_case, examples={"quick": 1, "thorough": 8}, shards={"quick": 4, "thorough": 4}, shrink=False),
     SubCheck("two_rdm_vjp_vs_finite_differences", body=rdm2_body, strategy=rdm2_case, examples={"quick": 2, "thorough": 20}, shards={"quick": 2, "thorough": 2}, shrink=False),
 ]
